@@ -182,6 +182,7 @@ def _instrument(tp, sched):
         def set(self):
             sched.point("event.set")
             self._real.set()
+            sched.unblock_all()
 
         def clear(self):
             sched.point("event.clear")
@@ -194,7 +195,12 @@ def _instrument(tp, sched):
 
         def wait(self, timeout=None):
             sched.point("event.wait")
-            return self._real.wait(0 if timeout is None else min(timeout, 0))
+            if timeout is None or timeout > 0:
+                # a waiter that is willing to wait is parked until the event is set (the time-out of the scenarios that
+                # use this is longer than the whole run)
+                while not self._real.is_set():
+                    sched.block()
+            return self._real.wait(0)
 
     def shared(name, label):
         slot = "probe_" + name
@@ -229,8 +235,8 @@ def _instrument(tp, sched):
     return make
 
 
-SCENARIOS = ("register||execute", "register,register||execute", "execute||observe", "register(raising cb)||execute",
-             "register||execute||observe")
+SCENARIOS = ("register||execute", "register,register||execute", "execute||observe", "execute||blocked result()",
+             "register(raising cb)||execute", "register||execute||observe")
 
 
 def _one(tp, scenario, task_raises, prefix, bound):
@@ -282,7 +288,17 @@ def _one(tp, scenario, task_raises, prefix, bound):
         except RuntimeError as e:
             observed.append((d, "raised", e))
 
+    def op_wait_for_result():
+        try:
+            r = fut.result(30)
+            observed.append((True, "value", r))
+        except OSError:
+            observed.append((True, "timeout", None))
+        except RuntimeError as e:
+            observed.append((True, "raised", e))
+
     bodies = {"register||execute": [op_register, op_execute],
+              "execute||blocked result()": [op_execute, op_wait_for_result],
               "register,register||execute": [op_register_twice, op_execute],
               "execute||observe": [op_execute, op_observe],
               "register(raising cb)||execute": [op_register_raising, op_execute],
